@@ -277,26 +277,33 @@ def lock_guards(body):
 
 
 def release_blocks(body, guard_local):
-    """Blocks whose terminator drops or moves away the guard local."""
+    """[(bb, kind)] where the guard local is dropped ('term') or moved away ('stmt' = moved into a temporary
+    by a statement, 'term' = moved by the terminator itself)."""
     out = []
     for bi in body.normal_blocks():
-        t = body.blocks[bi]["term"]
+        blk = body.blocks[bi]
+        for st in blk["stmts"]:
+            if st["k"] == "assign" and "use" in st["rv"]:
+                mv = st["rv"]["use"].get("move")
+                if mv and mv["l"] == guard_local and not mv["p"]:
+                    out.append((bi, "stmt"))
+        t = blk["term"]
         if t["k"] == "drop" and t["place"]["l"] == guard_local and not t["place"]["p"]:
-            out.append(bi)
+            out.append((bi, "term"))
         elif t["k"] == "call":
             for a in t["args"]:
                 if "move" in a and a["move"]["l"] == guard_local and not a["move"]["p"]:
-                    out.append(bi)
+                    out.append((bi, "term"))
     return out
 
 
 def held_at(body, acquire_bb, guard_local, site_bb):
-    """Guard acquired at acquire_bb is held at site_bb on all normal paths:
+    """Guard acquired at acquire_bb is held at the terminator of site_bb on all normal paths:
     (a) acquisition dominates the site, (b) no release point can reach the site."""
     if not dominated(body, site_bb, via_blocks=[acquire_bb]) or site_bb == acquire_bb:
         return False, "acquisition does not dominate the site"
-    for r in release_blocks(body, guard_local):
-        if r == site_bb or reaches(body, r, site_bb):
+    for (r, kind) in release_blocks(body, guard_local):
+        if (r == site_bb and kind == "stmt") or reaches(body, r, site_bb):
             return False, "released at bb%d (%s) before the site" % (r, body.blocks[r]["term"]["sp"])
     return True, ""
 
